@@ -211,7 +211,17 @@ def split_row_child(r, transport, bench, rec, stats, encoding=None):
         if transport == 'pty':
             err = run_pty(s, env=bench.env(), encoding=encoding)
         elif transport == 'pty-list':          # the list form: nothing is split, the list is the argv
-            err = run_pty(want_args[0], want_args[1:], env=bench.env(), encoding=encoding)
+            arglist = list(want_args[1:])
+            err = run_pty(want_args[0], arglist, env=bench.env(), encoding=encoding)
+            if err is None and bench.report() == want:
+                # the caller's list is the caller's: launching again with the very same list object must
+                # start the very same argv (a worker pool / retry loop re-using one list)
+                bench.clear()
+                stats['evaluations'] += 1
+                err = run_pty(want_args[0], arglist, env=bench.env(), encoding=encoding)
+                if err is None and arglist != want_args[1:]:
+                    return {'command_line': s, 'callers_list_after_spawn': arglist, 'callers_list_before': want_args[1:],
+                            'child_argv': bench.report(), 'want_argv': want}
         else:
             err = run_popen(s, env=bench.env(), encoding=encoding)
         got = bench.report()
